@@ -47,6 +47,7 @@ UNPROVED = [
     "VarDecl.v models the order of the effects of a declaration only: must_declare_at_runtime / must_define_at_runtime / `not defined` branches, the require branch and visitors.Assign are not modelled (vardecl stream and builds only)",
     "expressions whose functions write variables: order of unsequenced operands is compiler-dependent (refuted); the positive theorem for write-free functions is C01_order_preserved_partial in coq/C01, not restated here",
     "maximum_performance, debug, sanitize, shared/static library configurations and user --cflags are not in cflags_of",
+    "compilers outside the entries deriving from gcc: the generic `cc` entry has no -fwrapv (C09_generic_cc_wraps_refuted, open finding with repair); tcc, c2m and nvcc are not modelled (nvcc exempt by name)",
 ]
 THEOREM_CLASSES = {
     "C09_idiv_checked_eq_unchecked": "tripwire",      # content = the scraped position of the b == -1 line; also satisfied by two undefined runs
@@ -70,18 +71,19 @@ THEOREM_CLASSES = {
     "C09_vardecl_effects_partial": "corollary",       # every placement: permutation, single effect
     "C09_compiler_independent_refuted": "refutation",
     "C09_base_flags_always": "main",
-    "C09_every_gnu_compiler_wraps": "tripwire",       # scraped: effective base flags of gcc, clang, zig cc, emcc, g++, clang++
+    "C09_gcc_derived_entries_wrap": "tripwire",       # scraped: effective base flags of every compilers_flags entry deriving from gcc (family computed)
+    "C09_generic_cc_wraps_refuted": "refutation",     # the generic `cc` entry has no -fwrapv (known finding, replayed by the wrap stream)
     "C09_release_config": "main",
     "C09_plain_ops_defined_with_base_flags": "main",
     "C09_fwrapv_needed": "corollary",
 }
 MANIFEST_ENTRY = {
-    "text": "proof, partial: theorems cover (a) the run-time checks removed by nochecks/release - a passing idiv/imod/bounds/deref/integer-narrowing/check() leaves the same value with the check removed (float narrowing refuted), (b) dead code elimination - Symbol:is_used is reachability along usedby, fuel adequate, emitted = nodce or reachable, the initializer of a dropped variable is still evaluated, and the ORDER of a declaration's effects is independent of DCE (full strength since /repo d685d37; for every placement of the statements: iff dropped initializers go to defemitter), (c) the flag tables: base flags in every configuration, release => nochecks, -O2 -DNDEBUG; + - * unary minus defined under the base flags.  Rest on differential testing only: the whole-program statement `same output in every build mode`, every -O level, gcc vs clang, all other checks.",
+    "text": "proof, partial: theorems cover (a) the run-time checks removed by nochecks/release - a passing idiv/imod/bounds/deref/integer-narrowing/check() leaves the same value with the check removed (float narrowing refuted), (b) dead code elimination - Symbol:is_used is reachability along usedby, fuel adequate, emitted = nodce or reachable, the initializer of a dropped variable is still evaluated, and the ORDER of a declaration's effects is independent of DCE (full strength since /repo d685d37; for every placement of the statements: iff dropped initializers go to defemitter), (c) the flag tables: base flags in every configuration (for every compilers_flags entry deriving from gcc; the generic `cc` entry REFUTED: open finding), release => nochecks, -O2 -DNDEBUG; + - * unary minus defined under the base flags.  Rest on differential testing only: the whole-program statement `same output in every build mode`, every -O level, gcc vs clang, all other checks.",
     "note": "no axioms; tie: scraped cdefs.lua/configer.lua/cbuiltins.lua/cgenerator.lua facts in Gen.v, extracted model run against the real Symbol:is_used, against the emitted helpers in checked and nochecks builds, against the real compile command line, and against default / -P nodce builds of generated declarations; depends on files of C01 and C03 (coq/C03/{CSem,Helpers,ProofsBase,ProofsDiv}.v and coq/C01/Order.v copied by checks/C01.py:sync_shared, harness/C01/{scrape,progs,vardecl}.py, harness/C03/ubdrv.nelua)",
     "technique": "Coq theorems about an executable Gallina model + generated parameters + behavioural correspondence of the extracted model; differential builds",
 }
 
-GNU_FAMILY = ["gcc", "clang", "zig cc", "emcc", "g++", "clang++"]
+FWRAPV_EXEMPT = {"nvcc": "CUDA driver: host compiler options go through -Xcompiler, its entry sets cflags_base = \"\" itself; not a C compiler of the statement"}
 FLAG_TABLE = {}
 FLAG_CODES = {"-fwrapv": 1, "-fno-strict-aliasing": 2, "-O2": 3, "-DNDEBUG": 4, "-g": 5}
 
@@ -119,15 +121,25 @@ def gen(ctx):
             lines.append("Definition %s_%s : list nat := %s.  (* %s *)" % (cc, k, enc(v), v))
     lines.append("Definition gcc_base_has_fwrapv : bool := %s." % ("true" if "-fwrapv" in fl["gcc"]["cflags_base"].split() else "false"))
     lines.append("Definition clang_base_has_fwrapv : bool := %s." % ("true" if "-fwrapv" in fl["clang"]["cflags_base"].split() else "false"))
-    # every compiler entry of the GNU family (optimises on signed overflow, understands the flag); tcc / c2m do not
-    # know the flag and do not optimise on overflow, nvcc hands other flags to its host compiler: not in the list
-    fam = [n for n in GNU_FAMILY if n in fl]
-    missing = [n for n in GNU_FAMILY if n not in fl]
-    if missing:
-        raise RuntimeError("cdefs.lua: compilers_flags entries not found: %s" % missing)
-    lines.append("(* effective cflags_base (inheritance and aliases resolved) contains -fwrapv, for: %s *)" % ", ".join(fam))
-    lines.append("Definition gnu_family_base_has_fwrapv : list bool := [%s]." % "; ".join("true" if "-fwrapv" in fl[n].get("cflags_base", "").split() else "false" for n in fam))
-    scraped["gnu_family_base_has_fwrapv"] = {n: "-fwrapv" in fl[n].get("cflags_base", "").split() for n in fam}
+    # every entry of compilers_flags that derives from gcc (computed from the tabler.updatecopy / alias chain), except
+    # the ones named in FWRAPV_EXEMPT with the reason; a new entry deriving from gcc joins the family by itself
+    entries = scrape.scrape_compiler_entries(vlib.repo_read("lualib/nelua/cdefs.lua"))
+    fam = [e for e in entries if e["derives_from_gcc"] and e["name"] not in FWRAPV_EXEMPT]
+    if not any(e["name"] == "gcc" for e in fam) or not any(e["name"] == "clang" for e in fam):
+        raise RuntimeError("cdefs.lua: gcc / clang are not among the entries deriving from gcc: %s" % [e["name"] for e in entries])
+    lines.append("(* effective cflags_base (inheritance and aliases resolved) contains -fwrapv, for every entry of compilers_flags deriving")
+    lines.append("   from gcc: %s (exempt: %s) *)" % (", ".join(e["name"] for e in fam), "; ".join("%s - %s" % kv for kv in FWRAPV_EXEMPT.items())))
+    lines.append("Definition gcc_derived_base_has_fwrapv : list bool := [%s]." % "; ".join("true" if "-fwrapv" in e["cflags_base"].split() else "false" for e in fam))
+    gen_cc = [e for e in entries if e["name"] == "cc"]
+    if not gen_cc:
+        raise RuntimeError("cdefs.lua: the generic `cc` entry was not found")
+    fallback = scrape.scrape_generic_cc_fallback(vlib.repo_read("lualib/nelua/ccompiler.lua"))
+    lines.append("(* the generic entry `cc` (selected by --cc cc, CC=cc and for any name no other entry matches): its own cflags_base")
+    lines.append("   contains -fwrapv / ccompiler.get_compiler_cflags gives it gcc's base flags when the compiler is GNU C or clang *)")
+    lines.append("Definition generic_cc_base_has_fwrapv : bool := %s." % ("true" if "-fwrapv" in gen_cc[0]["cflags_base"].split() else "false"))
+    lines.append("Definition generic_cc_gets_gnu_base : bool := %s." % ("true" if fallback else "false"))
+    scraped["compiler_entries"] = entries
+    scraped["generic_cc_gets_gnu_base"] = fallback
     lines.append("Definition release_implies_nochecks : bool := %s." % ("true" if rel_nochecks else "false"))
     guard = scrape.scrape_div_guard(vlib.repo_read("lualib/nelua/cbuiltins.lua"))
     lines.append("(* cbuiltins.nelua_idiv_/nelua_imod_: the `b == -1` line is emitted before `if checked then` *)")
@@ -535,6 +547,8 @@ def stream_checks(ctx, driver, cov):
     return len(cases) * 2, len(set(c[2] for c in cases)), [cases[0][3], cases[-1][3]]
 
 
+W_GENERIC_CC = "wrap: `x + 1 > x` on int32 a = 2147483647: --cc cc vs default (gcc)"
+GENERIC_CC_CONFIGS = [("cc", ["--cc", "cc"]), ("cc --release", ["--cc", "cc", "--release"])]
 WRAP_CONFIGS = [("gcc", []), ("gcc --release", ["--release"]), ("gcc -O3", ["--cflags=-O3"]),
                 ("clang", ["--cc", "clang"]), ("clang --release", ["--cc", "clang", "--release"]),
                 ("clang -O1", ["--cc", "clang", "--cflags=-O1"]), ("clang -O3", ["--cc", "clang", "--cflags=-O3"])]
@@ -557,7 +571,7 @@ def stream_wrap(ctx, driver, cov):
         lo, hi = -(1 << (bits - 1)), (1 << (bits - 1)) - 1
         A = [lo, lo + 1, lo + 2, lo // 2, lo // 2 - 1, -84, -2, -1, 0, 1, 2, 5, hi // 2, hi // 2 + 1, hi - 84, hi - 2, hi - 1, hi]
         B = [lo, -84, -2, -1, 0, 1, 2, 3, 84, hi]
-        cases += [(ti, t, a, b) for a in A for b in B]
+        cases += [(ti, t, a, b) for a in A for b in B]          # (contains the designated witness i32 2147483647 1)
         cases += [(ti, t, wrap_to(t, rng.getrandbits(64)), wrap_to(t, rng.getrandbits(rng.choice([3, 16, 64])))) for _ in range(ctx.scale(60, 1500))]
 
     def build(cfg):
@@ -566,7 +580,11 @@ def stream_wrap(ctx, driver, cov):
         rc, o, e = vlib.nelua(["--no-cache", "--cache-dir", out + ".cache", "-b", "-o", out] + extra + [src], timeout=600)
         return name, rc, out, (o + e)[-600:]
     with cf.ThreadPoolExecutor(max_workers=4) as ex:
-        built = list(ex.map(build, WRAP_CONFIGS))
+        import shutil
+        have_cc = shutil.which("cc") is not None
+        built = list(ex.map(build, WRAP_CONFIGS + (GENERIC_CC_CONFIGS if have_cc else [])))
+    generic = {n for n, _ in GENERIC_CC_CONFIGS}
+    cc_wraps = vlib.sh([driver], input="ccwraps\n", timeout=60)[1].strip() == "1"
     itext = "\n".join("%d %d %d" % (ti, a, b) for ti, t, a, b in cases) + "\n"
     outs = {}
     for name, rc, out, log in built:
@@ -579,13 +597,22 @@ def stream_wrap(ctx, driver, cov):
             continue
         outs[name] = [x.split("\t") for x in r[1].split("\n")]
     base = outs.get("gcc")
-    n_diff = n_mm = n_undef = 0
+    n_diff = n_mm = n_undef = n_cc = 0
     if base and len(base) >= len(cases):
         # 1. the property: no configuration changes the output
         for name, lines in outs.items():
             if name == "gcc":
                 continue
             for k, c in enumerate(cases):
+                if k < len(lines) and lines[k] != base[k] and name in generic and not cc_wraps:
+                    # the generic `cc` entry has no -fwrapv (model: generic_cc_wraps = false, theorem
+                    # C09_generic_cc_wraps_refuted): known finding, reported on its designated witness only
+                    n_cc += 1
+                    if name == "cc" and (c[1], c[2]) == ("i32", 2147483647) and c[3] == 1 and lines[k][0] != base[k][0]:
+                        ctx.violation(W_GENERIC_CC, "oracle", "`x + 1 > x` on int32 a = 2147483647: built with `--cc cc` it is %s, with the default compiler entry (gcc) %s" % (lines[k][0], base[k][0]),
+                                      detail={"probe": "harness/C09/wrapdrv.nelua", "input_line": "1 2147483647 1",
+                                              "replay": "nelua --cc cc --verbose <file> (no -fwrapv in the command); echo '1 2147483647 1' | <harness/C09/wrapdrv.nelua built with --cc cc>  vs  <built with no option>"})
+                    continue
                 if k >= len(lines) or lines[k] != base[k]:
                     n_diff += 1
                     if n_diff <= 4:
@@ -653,6 +680,7 @@ def stream_wrap(ctx, driver, cov):
     elif base is not None:
         ctx.violation("harness-run:wrap-output", "harness", "wrap probe printed %d lines for %d cases" % (len(base), len(cases)), failing_input=False)
     cov["wrap"] = {"cases": len(cases), "configurations": [n for n in outs], "idioms": WRAP_IDIOMS, "differences_between_configurations": n_diff,
+                   "generic_cc_entry": {"cc_on_path": have_cc, "model_says_it_wraps": cc_wraps, "differences_predicted_by_C09_generic_cc_wraps_refuted": n_cc},
                    "model_mismatches": n_mm, "values_the_model_leaves_undefined": n_undef}
     return len(cases) * len(outs), len(set(cases)), ["%s %d %d" % c[1:] for c in cases[:2]]
 
